@@ -143,24 +143,23 @@ theorem namesOk_of_plInv {d : Db} (hI : PlInv d) : namesOk d.pl = true := by
     (by simp [rowCrate, hkey]) (by simp [rowCrate, hval])
   exact hne (by simpa [rowCrate] using congrArg Forest.Crate.id this)
 
-theorem entitiesOk_of_memInv {d : Db} (hM : MemInv d) : entitiesOk d = true := by
+theorem entitiesOk_of_memInv {d : Db} (hM : MemInv d) (hp : PairsOk (cores d.pe)) (ho : AllOwn d) : entitiesOk d = true := by
   unfold entitiesOk
   rw [Bool.and_eq_true, List.all_eq_true, List.all_eq_true]
   constructor
   · intro e he
     have hc : core e ∈ cores d.pe := mem_cores.mpr ⟨e, he, rfl⟩
-    obtain ⟨h1, h2⟩ := hM.live _ hc
-    simp only [core] at h1 h2
+    have h4 := ho _ hc
+    obtain ⟨h1, h2⟩ := hM.live _ hc h4
+    simp only [core] at h1 h2 h4
     have h3 := (hM.tracks_seq _ h2).1
-    have h4 := hM.own _ hc
-    simp only [core] at h4
-    simp [plExists_iff.mpr h1, h2, h3, h4]
+    simp [plExists_iff.mpr h1, h2, h3]
   · intro e he
     rw [Bool.not_eq_true', List.any_eq_false]
     intro e' he' hb
     simp only [Bool.and_eq_true, bne_iff_ne, ne_eq, beq_iff_eq] at hb
     obtain ⟨⟨hne, hkey⟩, hval⟩ := hb
-    have := hM.pairs.pair_unique (core e') (mem_cores.mpr ⟨e', he', rfl⟩) (core e) (mem_cores.mpr ⟨e, he, rfl⟩)
+    have := hp.pair_unique (core e') (mem_cores.mpr ⟨e', he', rfl⟩) (core e) (mem_cores.mpr ⟨e, he, rfl⟩)
       (by simp [core, hkey]) (by simp [core, hval])
     exact hne (congrArg (·.1) this)
 
@@ -172,12 +171,12 @@ theorem tracksOk_of_memInv {d : Db} (hM : MemInv d) : tracksOk d = true := by
   simp [this.1, this.2]
 
 /-- C11 (2.x crate tables): every state satisfying the invariants is well-formed as judged by the executable `wfRaw`. -/
-theorem wfRaw_of_inv {S : Ord} {d : Db} (hI : Inv S d) : wfRaw d = true := by
+theorem wfRaw_of_inv {S : Ord} {d : Db} (hI : Inv S d) (ho : AllOwn d) : wfRaw d = true := by
   have hch := wfChains_of_chInv hI.ch
   unfold wfChains at hch
   unfold wfRaw checks
   rw [List.all_append, hch, Bool.true_and]
   simp only [List.all_cons, List.all_nil, Bool.and_true, Bool.and_eq_true]
-  exact ⟨forestOk_of_plInv hI.pl, namesOk_of_plInv hI.pl, entitiesOk_of_memInv hI.mem, tracksOk_of_memInv hI.mem⟩
+  exact ⟨forestOk_of_plInv hI.pl, namesOk_of_plInv hI.pl, entitiesOk_of_memInv hI.mem hI.ch.pairs ho, tracksOk_of_memInv hI.mem⟩
 
 end EngineModel.Db.V2
